@@ -12,14 +12,14 @@ V_CONTRACT
 void *m_mem_unref(void *src)
 V_REQUIRES(1)
 V_ASSIGNS(g.unref_calls, g.unref_arg, g.unref_arg_prev)
-V_ENSURES(V_RET == NULL && g.unref_calls == V_OLD(g.unref_calls) + 1 && g.unref_arg == src && g.unref_arg_prev == V_OLD(g.unref_arg))
+V_ENSURES(V_RET == NULL && g.unref_calls == V_OLD(g.unref_calls) + 1 && __CPROVER_pointer_equals(g.unref_arg, src) && g.unref_arg_prev == V_OLD(g.unref_arg))
 ;
 
 V_CONTRACT
 void *m_mem_ref(void *src)
 V_REQUIRES(1)
 V_ASSIGNS(g.ref_calls, g.ref_arg)
-V_ENSURES(__CPROVER_pointer_equals(V_RET, src) && g.ref_calls == V_OLD(g.ref_calls) + 1 && g.ref_arg == src)
+V_ENSURES(__CPROVER_pointer_equals(V_RET, src) && g.ref_calls == V_OLD(g.ref_calls) + 1 && __CPROVER_pointer_equals(g.ref_arg, src))
 ;
 
 V_CONTRACT
@@ -33,8 +33,8 @@ V_CONTRACT
 int m_queue_enqueue(m_queue_t *q, void *data)
 V_REQUIRES(V_Q_OK(q) && data != NULL)
 V_ASSIGNS(q->len, q->last, q->first, g.enq_calls, g.enq_arg, g.enq_q)
-V_ENSURES(V_RET == 0 && q->len == V_OLD(q->len) + 1 && q->last == data && q->first == (V_OLD(q->len) == 0 ? data : V_OLD(q->first))
-          && g.enq_calls == V_OLD(g.enq_calls) + 1 && g.enq_arg == data && g.enq_q == q)
+V_ENSURES(V_RET == 0 && q->len == V_OLD(q->len) + 1 && __CPROVER_pointer_equals(q->last, data) && (V_OLD(q->len) == 0 ? __CPROVER_pointer_equals(q->first, data) : q->first == V_OLD(q->first))
+          && g.enq_calls == V_OLD(g.enq_calls) + 1 && __CPROVER_pointer_equals(g.enq_arg, data) && __CPROVER_pointer_equals(g.enq_q, q))
 ;
 
 V_CONTRACT
@@ -42,21 +42,21 @@ m_queue_t *m_queue_new(m_queue_dtor fn)
 V_REQUIRES(1)
 V_ASSIGNS(g.qnew_calls, g.qnew_ret)
 V_ENSURES(__CPROVER_is_fresh(V_RET, sizeof(struct _queue)) && V_RET->len == 0 && V_RET->first == NULL && V_RET->last == NULL
-          && g.qnew_calls == V_OLD(g.qnew_calls) + 1 && g.qnew_ret == V_RET)
+          && g.qnew_calls == V_OLD(g.qnew_calls) + 1 && __CPROVER_pointer_equals(g.qnew_ret, V_RET))
 ;
 
 V_CONTRACT
 int m_queue_free(m_queue_t **q)
 V_REQUIRES(q != NULL && V_RW_OK(q, sizeof(*q)) && (*q == NULL || V_Q_OK(*q)))
 V_ASSIGNS(*q, g.qfree_calls, g.qfree_arg)
-V_ENSURES(V_RET == 0 && *q == NULL && g.qfree_calls == V_OLD(g.qfree_calls) + 1 && g.qfree_arg == V_OLD(*q))
+V_ENSURES(V_RET == 0 && *q == NULL && g.qfree_calls == V_OLD(g.qfree_calls) + 1 && __CPROVER_pointer_equals(g.qfree_arg, V_OLD(*q)))
 ;
 
 V_CONTRACT
 void *m_stack_peek(const m_stack_t *s)
 V_REQUIRES(s == NULL || V_S_OK(s))
 V_ASSIGNS()
-V_ENSURES(V_RET == ((s == NULL || s->len == 0) ? NULL : s->top))
+V_ENSURES((s == NULL || s->len == 0) ? V_RET == NULL : __CPROVER_pointer_equals(V_RET, s->top))
 ;
 
 V_CONTRACT
@@ -70,7 +70,7 @@ V_CONTRACT
 int m_stack_push(m_stack_t *s, void *data)
 V_REQUIRES(V_S_OK(s) && data != NULL)
 V_ASSIGNS(s->len, s->top, g.push_calls, g.push_arg)
-V_ENSURES(V_RET == 0 && s->len == V_OLD(s->len) + 1 && s->top == data && g.push_calls == V_OLD(g.push_calls) + 1 && g.push_arg == data)
+V_ENSURES(V_RET == 0 && s->len == V_OLD(s->len) + 1 && __CPROVER_pointer_equals(s->top, data) && g.push_calls == V_OLD(g.push_calls) + 1 && __CPROVER_pointer_equals(g.push_arg, data))
 ;
 
 /* pop of the abstract stack: the new top is not tracked (only len), so it is left unconstrained except for emptiness */
@@ -79,8 +79,8 @@ void *m_stack_pop(m_stack_t *s)
 V_REQUIRES(s == NULL || V_S_OK(s))
 V_ASSIGNS(s != NULL: s->len, s->top; g.pop_calls)
 V_ENSURES(V_IMP(s == NULL || V_OLD(s->len) == 0, V_RET == NULL && g.pop_calls == V_OLD(g.pop_calls)))
-V_ENSURES(V_IMP(s != NULL && V_OLD(s->len) == 0, s->len == 0 && s->top == V_OLD(s->top)))
-V_ENSURES(V_IMP(s != NULL && V_OLD(s->len) > 0, V_RET == V_OLD(s->top) && V_RET != NULL && s->len == V_OLD(s->len) - 1 && g.pop_calls == V_OLD(g.pop_calls) + 1
+V_ENSURES(V_IMP(s != NULL && V_OLD(s->len) == 0, s->len == 0 && __CPROVER_pointer_equals(s->top, V_OLD(s->top))))
+V_ENSURES(V_IMP(s != NULL && V_OLD(s->len) > 0, __CPROVER_pointer_equals(V_RET, V_OLD(s->top)) && V_RET != NULL && s->len == V_OLD(s->len) - 1 && g.pop_calls == V_OLD(g.pop_calls) + 1
                 && (s->len == 0 ? s->top == NULL : s->top != NULL)))
 ;
 
@@ -141,7 +141,7 @@ V_CONTRACT
 void *m_queue_itr_get_data(const m_queue_itr_t *itr)
 V_REQUIRES(itr == g_qit && v_qit_ok() && !g_qit->removed)
 V_ASSIGNS(g.itr_get_calls, g.itr_nonhead, g.itr_elem)
-V_ENSURES(__CPROVER_pointer_equals(V_RET, (void *)&g_elem_obj) && g.itr_elem == (void *)&g_elem_obj && g.itr_get_calls == V_OLD(g.itr_get_calls) + 1 && g.itr_nonhead == (V_OLD(g.itr_nonhead) || g_qit->idx != 0))
+V_ENSURES(__CPROVER_pointer_equals(V_RET, (void *)&g_elem_obj) && __CPROVER_pointer_equals(g.itr_elem, (void *)&g_elem_obj) && g.itr_get_calls == V_OLD(g.itr_get_calls) + 1 && g.itr_nonhead == (V_OLD(g.itr_nonhead) || g_qit->idx != 0))
 ;
 
 V_CONTRACT
